@@ -77,6 +77,18 @@ def gen_spec_strings(rng, allow_both):
     return out
 
 
+def own_parse(text):
+    """The documented grammar of one -maxwarn token, read independently of bin/martinize2:
+    NUMBER | TYPE | TYPE:NUMBER (TYPE may be empty: ':3' limits the type '' to 3)."""
+    if text.count(':') == 1:
+        t, c = text.split(':')
+        return (t, int(c))
+    try:
+        return (None, int(text))
+    except ValueError:
+        return (text, None)
+
+
 def oracle(entries, specs, level=logging.WARNING):
     """The property statement, computed independently of code and model."""
     above = sum(c for l, t, c in entries if l > level)
@@ -134,11 +146,11 @@ for recs, ss, use_oracle in cases:
     impl = ignore_warnings_and_count(handler, specs)
     lines.append(line('leftover', logging.WARNING, entries, [[[t, c] for t, c in g] for g in specs]))
     impls.append(str(impl))
-    meta.append((entries, specs, use_oracle, impl))
+    meta.append((entries, specs, use_oracle, impl, [[own_parse(x) for x in g] for g in ss]))
 models = chk.drv.ask(lines) if chk.lean_ok else [None] * len(lines)
-for i, (ln, impl, mo, (entries, specs, use_oracle, impl_v)) in enumerate(zip(lines, impls, models, meta)):
+for i, (ln, impl, mo, (entries, specs, use_oracle, impl_v, own_specs)) in enumerate(zip(lines, impls, models, meta)):
     errs = []
-    want = oracle(entries, specs) if use_oracle else None
+    want = oracle(entries, own_specs) if use_oracle else None
     if want is not None and want != impl_v:
         errs.append('leftover=%d but the stated accounting gives %d' % (impl_v, want))
     nerr = sum(c for l, t, c in entries if l > logging.WARNING)
@@ -185,7 +197,7 @@ for i, (s, ln, im, mo) in enumerate(zip(strings, plines, pimpl, pmodel)):
     # oracle: canonical renderings must round-trip, three-part specs must be rejected
     if s.count(':') >= 2 and im != 'reject':
         errs.append('three-part specification %r accepted' % s)
-    m = re.fullmatch(r'([a-z-]+):(-?[0-9]+)', s)
+    m = re.fullmatch(r'([a-z-]*):(-?[0-9]+)', s)   # the type may be empty
     if m and im != 'ok %s %s' % (enc(m.group(1)), enc(int(m.group(2)))):
         errs.append('type:count %r parsed as %s' % (s, im))
     if re.fullmatch(r'-?[0-9]+', s) and im != 'ok - %d' % int(s):
@@ -272,7 +284,7 @@ for i, (ops, ln, ans, mo) in enumerate(zip(hists, hl, ha, hm)):
             for l, t in recs:
                 entries[(l, t)] = entries.get((l, t), 0) + 1
             ent = [[l, t, c] for (l, t), c in entries.items()]
-            specs = [[maxwarn(s) for s in g] for g in op[1]]
+            specs = [[own_parse(s) for s in g] for g in op[1]]
             want = oracle(ent, specs)
             if want is not None and a != want:
                 errs.append('step %d: leftover=%r but the stated accounting of the %d records logged so far gives %d' % (k, a, len(recs), want))
